@@ -462,7 +462,7 @@ func (e *Eng) indexVal(base, idx *Val, cur *State) *Val {
 	switch u := types.Unalias(base.Typ).Underlying().(type) {
 	case *types.Slice:
 		r, rs := e.elemRegion(u.Elem())
-		return &Val{T: sel(sel(e.get(cur, r, rs), sx("s_arr", base.T)), sx("+", sx("s_off", base.T), idx.T)), Typ: u.Elem(), KnownLen: -1}
+		return &Val{T: sel(sel(e.get(cur, r, rs), sx("s_arr", base.T)), idxAt(sx("s_off", base.T), idx.T)), Typ: u.Elem(), KnownLen: -1}
 	case *types.Map:
 		_, _, vr, vs := e.mapRegions(u)
 		return &Val{T: sel(sel(e.get(cur, vr, vs), base.T), idx.T), Typ: u.Elem(), KnownLen: -1}
@@ -587,18 +587,41 @@ func (e *Eng) evalCall(n *ECall, env *Env, cur, old *State) *Val {
 		return &Val{T: sx("m_"+n.Fn, t), Typ: types.Typ[types.Float64], KnownLen: -1}
 	case "typeIs":
 		a := e.eval(n.Args[0], env, cur, old)
-		id := n.Args[1].(*EIdent)
-		t, _ := e.specType(id.Name)
+		t, _ := e.specType(typeArgName(n.Args[1]))
 		return bval(and(not(eq(a.T, "0")), eq(sx("typeof", a.T), e.typeID(t))))
+	case "ext":
+		// ext("pkg.Func", args...): the same uninterpreted function the engine uses for that pure external
+		name := n.Args[0].(*EStr).V
+		var as, ss []string
+		for _, ax := range n.Args[1:] {
+			a := e.eval(ax, env, cur, old)
+			t, srt := a.T, a.sortName(e)
+			if a.Typ != nil && isByteSlice(a.Typ) {
+				t, srt = e.bseqOf(a, cur), "BSeq"
+			}
+			as = append(as, t)
+			ss = append(ss, srt)
+		}
+		fn := e.ld.funcs[name]
+		var rt types.Type
+		if fn == nil {
+			for f := range e.ld.allFuncs {
+				if f.String() == name {
+					rt = f.Signature.Results().At(0).Type()
+				}
+			}
+		} else {
+			rt = fn.Signature.Results().At(0).Type()
+		}
+		if rt == nil {
+			panic("ext: unknown function " + name)
+		}
+		ufn := "ext_" + sanitize(name)
+		e.sc.declare(ufn, fmt.Sprintf("(declare-fun %s (%s) %s)", ufn, strings.Join(ss, " "), e.sortOf(rt)))
+		return &Val{T: sx(ufn, as...), Typ: rt, KnownLen: -1}
 	case "unbox":
 		a := e.eval(n.Args[0], env, cur, old)
-		var tn string
-		switch id := n.Args[1].(type) {
-		case *EIdent:
-			tn = id.Name
-		case *EUn:
-			tn = "*" + id.X.(*EIdent).Name
-		}
+		tn := typeArgName(n.Args[1])
 		t, _ := e.specType(tn)
 		un := "unbox_" + typeKey(t)
 		e.sc.declare(un, fmt.Sprintf("(declare-fun %s (Int) %s)", un, e.sortOf(t)))
@@ -666,6 +689,18 @@ func (e *Eng) evalCall(n *ECall, env *Env, cur, old *State) *Val {
 		}
 	}
 	panic("unknown function " + n.Fn)
+}
+
+func typeArgName(x Expr) string {
+	switch id := x.(type) {
+	case *EIdent:
+		return id.Name
+	case *EUn:
+		return "*" + typeArgName(id.X)
+	case *ESel:
+		return typeArgName(id.X) + "." + id.Name
+	}
+	panic("type argument expected")
 }
 
 func (e *Eng) dtAccessor(base *Val, field string) *Val {
